@@ -1133,6 +1133,21 @@ func c05NoPlainAdmission(w *World, r *Report, rule8, rule11 string) {
 	}
 	c05RequirementSurvivesConfigError(w, r, rule11, newSC, reqFields)
 	secureF := fieldOf(scNamed, "secure")
+	if secureF == nil && newSC != nil {
+		// by role: the boolean field the constructor fills from its boolean parameter
+		for _, prm := range newSC.Params {
+			if b, ok := prm.Type().Underlying().(*types.Basic); !ok || b.Kind() != types.Bool {
+				continue
+			}
+			allInstrs(newSC, func(in ssa.Instruction) {
+				if st, ok := in.(*ssa.Store); ok && st.Val == ssa.Value(prm) {
+					if fa, ok := st.Addr.(*ssa.FieldAddr); ok {
+						secureF = fieldVarOf(fa)
+					}
+				}
+			})
+		}
+	}
 	factsJustify := func(facts map[ssa.Value]bool) bool {
 		for v, t := range facts {
 			for f := range reqFields {
